@@ -316,8 +316,12 @@ def _rest_after_r2(ctx, core, cg, G_holder=None):
     c02.heap_write_once(ctx, "C03.R5", core, [core, ctx.cli, ctx.wasm], cg,
                         doc="the value a bound name refers to is never modified in place: heap cells are only appended; the one in-place write (naming a lambda) happens only while the name is unset, so a later binding cannot change what an earlier name does")
 
-    # ------------- R3 fresh child scopes
-    ctx.rule("C03.R3", "every do-block statement is evaluated in an environment created by Environment::extend in the same arm, and a function body in Environment::extend_with: a child scope never is the parent itself", floor=3)
+    fresh_child_scopes(ctx, "C03.R3", core, cg)
+
+
+def fresh_child_scopes(ctx, rid, core, cg, doc=None):
+    """do-block statements and function bodies run in a scope of their own (shared with C02: evaluating an expression leaves the enclosing bindings as they were)"""
+    ctx.rule(rid, doc or "every do-block statement is evaluated in an environment created by Environment::extend in the same arm, and a function body in Environment::extend_with: a child scope never is the parent itself", floor=3)
     dob = "blots_core::expressions::evaluate_do_block_expr"
     for name in sorted(cg.fns):
         if not name.startswith("blots_core::"):
@@ -327,11 +331,11 @@ def _rest_after_r2(ctx, core, cg, G_holder=None):
             fn = fn or M.Fn(cg.fns[name], name)
             roots = fn.trace(fn.term(b)["args"][2])
             ok = bool(roots) and all(r[0] == "call" and r[1] == ENV + "extend" for r in roots)
-            n_do = sum(1 for i_ in ctx.instances if i_["rule"] == "C03.R3" and i_["key"].startswith(H.last(name) + "->evaluate_do_block_expr"))
-            ctx.inst("C03.R3", "%s->evaluate_do_block_expr#%d" % (H.last(name), n_do), ok,
+            n_do = sum(1 for i_ in ctx.instances if i_["rule"] == rid and i_["key"].startswith(H.last(name) + "->evaluate_do_block_expr"))
+            ctx.inst(rid, "%s->evaluate_do_block_expr#%d" % (H.last(name), n_do), ok,
                      "environment argument provenance: %s" % [r[:2] for r in roots], fn.loc(b))
     fc = M.Fn(core.mir_fn("blots_core::functions::FunctionDef::call"), "FunctionDef::call")
     for b in fc.calls_to(EVAL):
         roots = fc.trace(fc.term(b)["args"][2])
         ok = bool(roots) and all(r[0] == "call" and r[1] == ENV + "extend_with" for r in roots)
-        ctx.inst("C03.R3", "FunctionDef::call->evaluate_ast", ok, "body environment provenance: %s" % [r[:2] for r in roots], fc.loc(b))
+        ctx.inst(rid, "FunctionDef::call->evaluate_ast", ok, "body environment provenance: %s" % [r[:2] for r in roots], fc.loc(b))
